@@ -163,6 +163,19 @@ def _script(i):
 NS = 11
 
 
+def _ctor_variants(cls):
+    V = {
+        Note: [lambda: Note("C", 4, velocity=100, channel=5), lambda: Note("D", 2, {"velocity": 7}), lambda: Note(Note("E", 1, velocity=9)), lambda: Note(61)],
+        NoteContainer: [lambda: NoteContainer(["C", "E"]), lambda: NoteContainer(Note("C", 2, velocity=1)), lambda: NoteContainer(NoteContainer("G"))],
+        Bar: [lambda: Bar("F", (3, 4)), lambda: Bar("a", (6, 8))],
+        Track: [lambda: Track(Piano()), lambda: Track(MidiInstrument("Viola"))],
+        MidiTrack: [lambda: MidiTrack(90)],
+        MidiFile: [lambda: MidiFile([MidiTrack(60)])],
+        MidiInstrument: [lambda: MidiInstrument("Viola")],
+    }
+    return V.get(cls, [])
+
+
 def _sig(o, cls):
     """comparable picture of an instance's own state and of the class-level attributes"""
     inst = {}
@@ -192,9 +205,13 @@ def c15_siblings(i: int) -> bool:
         return False
     if a_after == a_before:
         return False  # the script must really change the instance it operates on
+    # constructors called with every argument form must not leave anything behind either
+    for mk in _ctor_variants(cls):
+        mk()
     c = cls()
     c_sig, _ = untraced(_sig, c, cls)
-    return c_sig == b_before
+    _, k_final = untraced(_sig, b, cls)
+    return c_sig == b_before and k_final == k_before
 
 
 def c15_copies(o: int, vel: int) -> bool:
